@@ -250,6 +250,26 @@ def determinism_obligations(rep, modules=('yp_generator', 'yp_prolog_visitor', '
                   [s.module for s in mod.tree.body if isinstance(s, ast.ImportFrom) and s.module]
         bad = [i for i in imports if i.split('.')[0] in NONDET_MODULES - {'os'}]
         rep.add_checked('%s.<module>.deterministic.imports' % m, not bad, ', '.join(bad), 'ast', function=m + '.<module>', witness=bad or None)
+    # the caller's options object outlives the call ("after any other compilations in the same process" with the same, reused
+    # options): no function of the library compile path stores into it
+    for m in modules:
+        for q, fn in core.module(m).functions.items():
+            if m == 'compiler' and q in ('main', '_set_debug_options'):
+                continue        # the command line fills in its own per-invocation click context
+            params = [a.arg for a in fn.args.args]
+            watched = [p_ for p_ in params if p_ in ('options', 'ctx', 'context')]
+            probs = []
+            for n in core.walk_own(fn):
+                if isinstance(n, (ast.Attribute, ast.Subscript)) and isinstance(n.ctx, (ast.Store, ast.Del)):
+                    src = ast.unparse(n.value)
+                    if src in watched or (src in ('self.context', 'self.ctx') and '__init__' not in q) \
+                            or any(src.startswith(w + '.') for w in watched):
+                        probs.append('line %d: %s' % (n.lineno, ast.unparse(n)[:60]))
+                if isinstance(n, ast.Call) and isinstance(n.func, ast.Name) and n.func.id in ('setattr', 'delattr') and n.args \
+                        and ast.unparse(n.args[0]) in watched + ['self.context', 'self.ctx']:
+                    probs.append('line %d: %s' % (n.lineno, ast.unparse(n)[:60]))
+            rep.add_checked('%s.%s.deterministic.options_object_not_modified' % (m, q), not probs, '; '.join(probs), 'ast',
+                            function='%s.%s' % (m, q), witness=probs or None)
     # per-compilation objects: _compile_prolog_from_stream creates every stateful object afresh
     mod = core.module('compiler')
     fn = mod.functions.get('_compile_prolog_from_stream')
@@ -340,6 +360,31 @@ def strict_parsing_obligations(rep):
                 probs.append('returns without checking that the next token is EOF')
     if not lexers or not parsers:
         probs.append('lexer/parser construction not found')
+    # what is lexed is the caller's text: the character stream is built from the parameter itself and handed on unchanged
+    iprobs = []
+    for q, ctor, par in (('compile_prolog_from_string', 'antlr4.InputStream', 0), ('compile_prolog_from_file', 'FileStream', 0),
+                         ('_compile_prolog_from_stream', 'prologLexer', 0)):
+        f2 = mod.functions.get(q)
+        if f2 is None:
+            iprobs.append('%s not found' % q)
+            continue
+        pname = f2.args.args[par].arg
+        stores = [n for n in ast.walk(f2) if isinstance(n, ast.Name) and n.id == pname and isinstance(n.ctx, (ast.Store, ast.Del))]
+        calls = [n for n in ast.walk(f2) if isinstance(n, ast.Call) and ast.unparse(n.func) == ctor]
+        if stores:
+            iprobs.append('%s: parameter %s is reassigned (line %d)' % (q, pname, stores[0].lineno))
+        if len(calls) != 1 or not calls[0].args or not (isinstance(calls[0].args[0], ast.Name) and calls[0].args[0].id == pname):
+            iprobs.append('%s: %s(...) is not applied to the parameter %s itself' % (q, ctor, pname))
+        if q != '_compile_prolog_from_stream':
+            # the stream created from the input is the one compiled
+            tgt = [s_.targets[0].id for s_ in ast.walk(f2) if isinstance(s_, ast.Assign) and s_.value in calls
+                   and len(s_.targets) == 1 and isinstance(s_.targets[0], ast.Name)]
+            fwd = [n for n in ast.walk(f2) if isinstance(n, ast.Call) and ast.unparse(n.func) == '_compile_prolog_from_stream']
+            if len(tgt) != 1 or len(fwd) != 1 or not fwd[0].args or ast.unparse(fwd[0].args[0]) != tgt[0] \
+                    or sum(1 for n in ast.walk(f2) if isinstance(n, ast.Name) and n.id == tgt[0] and isinstance(n.ctx, ast.Store)) != 1:
+                iprobs.append('%s: the stream built from the input is not the one passed to _compile_prolog_from_stream' % q)
+    rep.add_checked('compiler.<entry points>.typestate.input_reaches_lexer_unchanged', not iprobs, '; '.join(iprobs), 'ast',
+                    function='compiler.compile_prolog_from_string', witness=iprobs or None)
     rep.add_checked('compiler._compile_prolog_from_stream.typestate.strict_lexer_parser_eof', not probs, '; '.join(probs), 'ast',
                     function='compiler._compile_prolog_from_stream', witness=probs or None)
     # main turns every CompilerError into a non-zero exit
